@@ -35,7 +35,16 @@ impl Outcome {
 /// zlink uses) does not look inside content the requested shape ignores, so what decoding that
 /// frame alone with the same decoder gives is tolerated as the alternative (`acls`/`acanon`).
 /// For every valid UTF-8 frame both are the isolated decode.
+///
+/// A frame that holds nothing but JSON whitespace is no JSON document either, so it must give one
+/// error result of its own.  The statement calls that a decode error; zlink reports such a frame
+/// with the error variant it also uses for end-of-stream.  Which variant names the failure is not
+/// what C01 is about, so the `eof` class is tolerated for exactly these frames (and only as the
+/// result of the blank frame itself: it still has to consume that frame and nothing else).
 pub fn expected_fields(o: &Outcome, frame: &[u8]) -> serde_json::Value {
+    if !frame.is_empty() && frame.iter().all(|b| matches!(b, b' ' | b'\t' | b'\n' | b'\r')) {
+        return serde_json::json!({"cls": "decode_err", "canon": "", "acls": "eof", "acanon": ""});
+    }
     if std::str::from_utf8(frame).is_ok() {
         serde_json::json!({"cls": o.cls, "canon": o.canon, "acls": o.cls, "acanon": o.canon})
     } else {
